@@ -417,7 +417,7 @@ fn to_hc_cfg(s: &HcSpec) -> uv::HalfConnectionConfig {
 
 pub fn ceil_fragment(n: u64) -> u64 {
     let f = uflow::MAX_FRAGMENT_SIZE as u64;
-    ((n + f - 1) / f) * f
+    (n.saturating_add(f - 1) / f).saturating_mul(f)
 }
 
 /// Result of one guarded call into an endpoint.
@@ -1345,6 +1345,10 @@ impl<'a> World<'a> {
                     }
                 }
                 Probe::Client(c) => {
+                    // a handshake in progress (possibly with packets queued behind it) is not rest
+                    if c.state == 0 {
+                        return false;
+                    }
                     if let Some(h) = &c.hc {
                         if !q(h) {
                             return false;
